@@ -244,6 +244,7 @@ class Interp:
         """Interpret a resolved helper in place: parameters bound to the evaluated arguments, `self.*` facts inherited.
         The helper must finish on a single path with a computable return value."""
         params = [a.arg for a in callee.args.args]
+        params_all = list(params)
         skip_self = bool(params) and params[0] in ('self', 'cls') and isinstance(call.func, ast.Attribute)
         if skip_self:
             params = params[1:]
@@ -278,6 +279,12 @@ class Interp:
             raise Crash(fe['<crash>'])
         if fe.get('<outcome>') == 'raise':
             raise Unknown('helper %s raises on this path' % callee.name)
+        # the callee ran on the caller's own receiver (self.helper(...)): attribute facts it (re)bound are the caller's facts afterwards
+        if skip_self and isinstance(call.func, ast.Attribute) and isinstance(call.func.value, ast.Name) and call.func.value.id in ('self', 'cls'):
+            rn = params_all[0] if params_all else 'self'
+            for k2, v2 in fe.items():
+                if isinstance(k2, str) and k2.startswith(rn + '.'):
+                    env[call.func.value.id + k2[len(rn):]] = v2
         for nm, args, k in fe.get('<effects>', []):
             self.nodes.append(sub.nodes[k])
             env.setdefault('<effects>', []).append((nm, args, len(self.nodes) - 1))
